@@ -305,6 +305,69 @@ fn render_all(c: &Case) -> String {
     format!("{acc}{}", digest.count())
 }
 
+// ---------------------------------------------------------------- headless renderers (rip-cli)
+fn rip_bin() -> std::path::PathBuf {
+    let exe = std::env::current_exe().unwrap();
+    exe.parent().unwrap().parent().unwrap().parent().unwrap().join("target-cli/debug/rip")
+}
+fn coq_hk(k: &K) -> String {
+    match k {
+        K::OutputDelta(s) => format!("HDelta {}", coq_str(s)),
+        K::ToolStdout(_, c) => format!("HToolStdout {}", coq_str(c)),
+        K::ToolStderr(_, c) => format!("HToolStderr {}", coq_str(c)),
+        K::ToolFailed(_) => format!("HToolFailed {}", coq_str("boom")),
+        K::ProviderEvent(a, b, c) => format!(
+            "HProvider {} {} {} {}",
+            coq_bool(*a),
+            if *b { format!("[{}]", coq_str("x")) } else { "[]".into() },
+            if *c { format!("[{}]", coq_str("y")) } else { "[]".into() },
+            "None"
+        ),
+        K::SessionEnded => "HEnded".into(),
+        _ => "HOther".into(),
+    }
+}
+/// Runs the real `rip` binary's three headless renderers over the frames; returns per view (stopped_at, bytes).
+fn run_headless(c: &Case) -> Result<Vec<(String, Vec<u8>)>, String> {
+    use std::io::Write;
+    use std::process::{Command, Stdio};
+    let mut child = Command::new(rip_bin())
+        .env("RIP_VERIF_RENDER", "1")
+        .stdin(Stdio::piped())
+        .stdout(Stdio::piped())
+        .stderr(Stdio::piped())
+        .spawn()
+        .map_err(|e| format!("spawn rip: {e}"))?;
+    {
+        let mut stdin = child.stdin.take().unwrap();
+        for e in &c.evs {
+            let line = serde_json::to_string(&to_event(e)).unwrap();
+            stdin.write_all(line.as_bytes()).unwrap();
+            stdin.write_all(b"\n").unwrap();
+        }
+    }
+    let out = child.wait_with_output().map_err(|e| format!("wait: {e}"))?;
+    if !out.status.success() {
+        return Err(format!("rip exited with {:?}: {}", out.status.code(), String::from_utf8_lossy(&out.stderr).chars().take(400).collect::<String>()));
+    }
+    // parse "=== view <V> stopped_at <..> bytes <n>\n<n bytes>\n"
+    let b = out.stdout;
+    let mut pos = 0;
+    let mut views = vec![];
+    while pos < b.len() {
+        let nl = b[pos..].iter().position(|x| *x == b'\n').ok_or("no header newline")? + pos;
+        let head = String::from_utf8_lossy(&b[pos..nl]).to_string();
+        if !head.starts_with("=== view ") {
+            return Err(format!("bad header {head:?}"));
+        }
+        let n: usize = head.rsplit(' ').next().unwrap().parse().map_err(|_| "bad length")?;
+        let body = b[nl + 1..nl + 1 + n].to_vec();
+        views.push((head, body));
+        pos = nl + 1 + n + 1;
+    }
+    Ok(views)
+}
+
 fn gen_text(r: &mut Rng, big: bool) -> String {
     const ALPH: [&str; 12] = ["a", "b", " ", "\n", "é", "€", "😀", "\u{a0}", "\u{2003}", "\u{200b}", "x", "\u{10ffff}"];
     let n = if big { r.range(2000, 9000) } else { *r.pick(&[0, 0, 1, 1, 2, 3, 5, 9, 17]) };
@@ -428,6 +491,11 @@ fn main() {
     };
     let mut r = Rng::new(a.seed);
     let mut w = CaseWriter::new(&a.out, "Model.Tui", "check_case", "model_obs", 100);
+    let mut wh = CaseWriter::new(&a.out.join("headless"), "Model.Headless", "check_case", "model_obs", 100).with_base(1_000_000);
+    let have_rip = rip_bin().exists();
+    if !have_rip {
+        res.notes.push(format!("rip binary not found at {} — headless renderers not exercised", rip_bin().display()));
+    }
     let mut distinct = Distinct::default();
     let mut all: Vec<Case> = corpus();
     for i in 0..n {
@@ -445,6 +513,31 @@ fn main() {
                         res.oracle_violations.push(OracleViolation { case_id: i as i64, what: "rip_tui::render gave two different screens for the same state".into(), class: "render_nondeterministic".into(), replay: case_json(c) });
                     }
                 }
+            }
+        }
+        if have_rip && (i % 3 == 1 || i < 4) && c.evs.iter().all(|e| match &e.k { K::ToolStdout(_, s) | K::ToolStderr(_, s) | K::TaskDelta(_, _, s) => s.len() < 500, _ => true }) {
+            res.oracle_checks += 1;
+            res.bump("headless_runs");
+            match (run_headless(c), run_headless(c)) {
+                (Ok(v1), Ok(v2)) => {
+                    if v1 != v2 {
+                        res.oracle_violations.push(OracleViolation { case_id: i as i64, what: "headless renderers gave different output for the same frames".into(), class: "headless_nondeterministic".into(), replay: case_json(c) });
+                    }
+                    if let Some((_, body)) = v1.iter().find(|(h, _)| h.starts_with("=== view Output")) {
+                        match String::from_utf8(body.clone()) {
+                            Ok(text) if !a.oracle_only() => {
+                                let term = format!("{{| c_frames := {}; c_expect := {} |}}", coq_list(&c.evs, |e| coq_hk(&e.k)), coq_str(&text));
+                                let id = wh.push(term);
+                                if res.case_index.len() < 6000 {
+                                    res.case_index.insert(id.to_string(), case_json(c));
+                                }
+                            }
+                            Ok(_) => {}
+                            Err(_) => res.oracle_violations.push(OracleViolation { case_id: i as i64, what: "headless Output view wrote invalid UTF-8".into(), class: "headless_invalid_utf8".into(), replay: case_json(c) }),
+                        }
+                    }
+                }
+                (Err(e), _) | (_, Err(e)) => res.oracle_violations.push(OracleViolation { case_id: i as i64, what: format!("headless renderer crashed: {e}"), class: "headless_crash".into(), replay: case_json(c) }),
             }
         }
         let c2 = c.clone();
@@ -493,8 +586,9 @@ fn main() {
         }
     }
     w.flush();
+    wh.flush();
     res.distinct_nontrivial = distinct.count();
-    res.case_files = w.files.iter().map(|p| p.display().to_string()).collect();
+    res.case_files = w.files.iter().chain(wh.files.iter()).map(|p| p.display().to_string()).collect();
     res.write(&a.out);
     println!("c20: {} cases, {} distinct non-trivial, {} oracle violations, {} panics", res.evaluations, res.distinct_nontrivial, res.oracle_violations.len(), res.impl_panics);
 }
